@@ -6,6 +6,7 @@
 //! same line and diffs the answers (correspondence), (3) evaluates the property on the
 //! implementation's answer with the independent oracle of `oracle.rs`.
 
+mod docs;
 mod r#gen;
 mod oracle;
 mod wire;
@@ -206,7 +207,13 @@ fn eval_line_inner(l: &str) -> Option<Eval> {
                         ev.hits.push("rt:unserializable".into());
                     }
                     Err(e) => {
-                        fail(format!("accepted-then-unreadable:{e}"), "accepted on write but rejected on read", "ok".into(), e.to_string());
+                        // the recorded finding F2 keeps its narrow key; anything else is a new violation
+                        let key = if *e == "err:read" && oracle::vector_outgrows_budget(&ft, &stored) {
+                            "accepted-then-unreadable:err:read".to_string()
+                        } else {
+                            format!("accepted-then-unreadable-other:{e}")
+                        };
+                        fail(key, "accepted on write but rejected on read", "ok".into(), e.to_string());
                     }
                 }
                 ev.impl_out = format!("ok {} | {}", show_value(&stored), show_load(&r));
